@@ -240,7 +240,7 @@ func subCutRandom() mon.Sub {
 func subHandshakeWriteFault() mon.Sub {
 	return mon.Sub{
 		Name: "handshake-write-fault", Exhaustive: true, Required: true,
-		N:    func(string) int { return 2 * 4 * 3 },
+		N: func(string) int { return 2 * 4 * 3 },
 		Do: func(c *mon.C) {
 			server := c.I%2 == 0
 			wbuf := []int{0, 16, 64, 100}[c.I/2%4]
@@ -516,7 +516,7 @@ func subWriterFail() mon.Sub {
 							c.Fail("writer/sends-after-failure/"+kindName(fu), fmt.Sprintf("%s after a failed destination write sent more bytes", r.Op), det)
 							return
 						}
-						if r.Err == nil && fu.Kind != wops.ReadFrom && fu.Kind != wops.ReadFromErr {
+						if r.Err == nil && fu.Kind != wops.ReadFrom && fu.Kind != wops.ReadFromErr && fu.Kind != wops.ReadFromStall {
 							c.Fail("writer/error-not-sticky/"+kindName(fu), fmt.Sprintf("%s after a failed destination write returned nil", r.Op), det)
 							return
 						}
@@ -536,7 +536,7 @@ func subWriterFail() mon.Sub {
 }
 
 func kindName(o wops.Op) string {
-	return []string{"Write", "ReadFrom", "WriteThrough", "FlushFragment", "Flush", "Grow", "ReadFromErr"}[o.Kind]
+	return wops.KindName(o.Kind)
 }
 
 func main() {
